@@ -29,10 +29,14 @@
                  renamer copies js.Keywords into a per-call map).  First access = write, a second goroutine
                  starting cold at the same moment sees the table half filled.  Only a COLD process shows it:
                  any completed earlier call (e.g. a reference call) has filled the table
+     PoolBuf     an entry point takes its output buffer from a package-level pool and puts it back without
+                 resetting it when the call FAILED after the minifier had written output  (code: FALSE; Bytes and
+                 String allocate per call).  The pool is a shared location written by every call; the next call
+                 that draws the dirty buffer returns its own bytes behind the leftovers
      AllowReg    Add* concurrent with use: documented as unsupported, OUTSIDE the property            *)
 EXTENDS Integers, Sequences, FiniteSets, TLC, Json, SequencesExt
 
-CONSTANTS NG, MaxCalls, ShapeNames, AllowReg, CopyOpts, TightCap, CopyArgs, HtmlDep, LazyInit
+CONSTANTS NG, MaxCalls, ShapeNames, AllowReg, CopyOpts, TightCap, CopyArgs, HtmlDep, LazyInit, PoolBuf
 
 G == 1 .. NG
 Iota(n) == [i \in 1 .. n |-> i]      \* <<1, ..., n>> for the eager folds
@@ -46,8 +50,9 @@ Iota(n) == [i \in 1 .. n |-> i]      \* <<1, ..., n>> for the eager folds
    e = "match": m.Match looks up under the read lock, RETURNS (lock released), and the caller then runs the
    returned MinifierFunc: the minifier body executes without an outer read hold, its embedded resources
    re-enter the registry. *)
-Leaf(mt, inl) == [e |-> "minify", mt |-> mt, inl |-> inl, hold |-> FALSE, kids |-> <<>>]
-Node(mt, inl, kids) == [e |-> "minify", mt |-> mt, inl |-> inl, hold |-> FALSE, kids |-> kids]
+Leaf(mt, inl) == [e |-> "minify", mt |-> mt, inl |-> inl, hold |-> FALSE, fail |-> FALSE, kids |-> <<>>]
+Node(mt, inl, kids) == [e |-> "minify", mt |-> mt, inl |-> inl, hold |-> FALSE, fail |-> FALSE, kids |-> kids]
+Fail(n) == [n EXCEPT !.fail = TRUE]      \* the minifier returns an error AFTER it has written part of its output
 Hold(n) == [n EXCEPT !.hold = TRUE]
 Match(n) == [n EXCEPT !.e = "match"]
 
@@ -76,6 +81,9 @@ Cat == [
   cssG    |-> Node("css", FALSE, << Leaf("gate", FALSE) >>),         \* css url(data:<gate type>,...): parks INSIDE the css minifier
   svgG    |-> Node("svg", FALSE, << Node("css", FALSE, << Leaf("gate", FALSE) >>) >>),   \* three read-holds deep
   htmlCG  |-> Node("html", FALSE, << Node("css", TRUE, << Leaf("gatere", FALSE) >>) >>), \* style attribute -> css -> gate
+  htmlSG  |-> Node("html", FALSE, << Node("css", FALSE, << Leaf("gate", FALSE) >>) >>),  \* <style> -> css -> gate
+  htmlIG  |-> Node("html", FALSE, << Node("html", FALSE, << Leaf("gate", FALSE) >>) >>), \* <iframe> -> html -> gate
+  htmlVG  |-> Node("html", FALSE, << Node("svg", TRUE, << Node("css", FALSE, << Leaf("gate", FALSE) >>) >>) >>),  \* four read-holds deep
   gate    |-> Leaf("gate", FALSE),                                   \* user minifier that parks (literal)
   gatere  |-> Leaf("gatere", FALSE),                                 \* the same, served by a pattern
   cmd     |-> Leaf("cmd", FALSE),                                    \* AddCmd / AddCmdRegexp, stdin/stdout
@@ -105,23 +113,30 @@ Cat == [
   matchN  |-> Match(Leaf("none", FALSE)),                            \* nil function
   matchG  |-> Match(Leaf("gate", FALSE)),                            \* parks holding NO read lock
   matchGre |-> Match(Leaf("gatere", FALSE)),
-  add     |-> [e |-> "add", mt |-> "css", inl |-> FALSE, hold |-> FALSE, kids |-> <<>>]
+  \* calls that fail after output was written (truncated JSON, script syntax error below html, failing user minifier / command)
+  jsonF   |-> Fail(Leaf("json", FALSE)),
+  htmlF   |-> Fail(Node("html", FALSE, << Fail(Leaf("js", FALSE)) >>)),
+  htmlFa  |-> Fail(Node("html", FALSE, << Leaf("css", TRUE), Fail(Leaf("js", TRUE)) >>)),
+  htmlFj  |-> Fail(Node("html", FALSE, << Fail(Leaf("json", FALSE)) >>)),
+  userF   |-> Fail(Leaf("failfn", FALSE)),
+  cmdF    |-> Fail(Leaf("cmd", FALSE)),
+  add     |-> [e |-> "add", mt |-> "css", inl |-> FALSE, hold |-> FALSE, fail |-> FALSE, kids |-> <<>>]
 ]
 AllShapes == DOMAIN Cat
 
 Literal == {"html", "css", "svg", "gate", "cmd", "cmdin"}            \* m.literal
-Pattern == {"js", "json", "xml", "gatere", "upper"}                 \* m.pattern
+Pattern == {"js", "json", "xml", "gatere", "upper", "failfn"}                 \* m.pattern
 Registered(mt) == mt \in Literal \cup Pattern
 IsGate(mt) == mt \in {"gate", "gatere"}
 HasInline(mt) == mt \in {"css", "svg"}                               \* option struct with an Inline field
 AppendsPkg(mt) == mt \in {"css", "html"}                             \* append(urlBytes/dataBytes, ...)
 
 DomainShapes == AllShapes \ {"add"}                                  \* the property's domain (no registration during use)
-CoreShapes == {"css", "cssi", "js", "svg0", "svg1", "html0", "htmlC", "htmlS", "htmlG", "cssG",
+CoreShapes == {"css", "cssi", "js", "svg0", "svg1", "html0", "htmlC", "htmlS", "htmlG", "cssG", "jsonF", "htmlF",
                "gate", "gatere", "cmdin", "none", "cssH", "htmlSH", "matchS", "matchG"}
 SmallShapes == {"cssH", "htmlS", "cssG", "gatere", "matchS"}
 PairShapes == {"cssi", "svg0", "htmlS", "gate"}
-QuickShapes == {"cssi", "svg1", "htmlS", "htmlG", "svgG", "gatere", "matchS", "matchG", "cmdin", "none", "htmlCH"}
+QuickShapes == {"cssi", "jsonF", "svg1", "htmlS", "htmlG", "svgG", "gatere", "matchS", "matchG", "cmdin", "none", "htmlCH"}
 
 Tmpl == << 0, 0 >>                  \* cmd.Args still holds the registered template / slice base untouched
 Res(mt, v, inl, pk, ar, kids) == [mt |-> mt, v |-> v, inl |-> inl, pk |-> pk, ar |-> ar, kids |-> kids]
@@ -142,6 +157,7 @@ InitS == [ st   |-> [g \in G |-> <<>>],          \* call stack of goroutine g (t
            opt  |-> [mt \in {"css", "svg", "html"} |-> FALSE],   \* shared option structs (Inline / mutated flag)
            pkg  |-> Tmpl,                        \* backing array of the package-level append bases
            args |-> Tmpl,                        \* exec.Cmd.Args of the registered command
+           pool |-> "clean",                     \* pooled output buffer of the entry points (PoolBuf only)
            lazy |-> Tmpl,                        \* lazily built package-level table: Tmpl = nil, <<g, 1>> = g is filling it, <<g, 2>> = complete
            acc  |-> {},                          \* every kind of access to a shared location taken so far
            wr   |-> {},                          \* writes to shared locations by use calls
@@ -158,7 +174,7 @@ RECURSIVE Expected(_)
 Expected(node) ==
   IF node.e = "add" THEN Res(node.mt, "added", FALSE, "own", Tmpl, <<>>)
   ELSE IF ~Registered(node.mt) THEN Res(node.mt, IF node.e = "match" THEN "matchnil" ELSE "notexist", FALSE, "own", Tmpl, <<>>)
-  ELSE Res(node.mt, IF node.e = "match" THEN "match" ELSE "ok", node.inl, "own", Tmpl,
+  ELSE Res(node.mt, IF node.fail THEN "err" ELSE IF node.e = "match" THEN "match" ELSE "ok", node.inl, "own", Tmpl,
            [i \in 1 .. Len(node.kids) |-> Expected(node.kids[i])])
 \* for cmdin the expected result names the call's own temporary file
 ExpectedAt(node, me) == IF node.mt = "cmdin" THEN [Expected(node) EXCEPT !.ar = me] ELSE Expected(node)
@@ -181,7 +197,7 @@ Enabled(t, g) ==
 
 ResultOf(f) ==
   IF ~f.found THEN Res(f.node.mt, IF f.node.e = "match" THEN "matchnil" ELSE "notexist", FALSE, "own", Tmpl, <<>>)
-  ELSE Res(f.node.mt, IF f.node.e = "match" THEN "match" ELSE "ok", f.inl, f.pk, f.ar, f.kres)
+  ELSE Res(f.node.mt, IF f.node.fail THEN "err" ELSE IF f.node.e = "match" THEN "match" ELSE "ok", f.inl, f.pk, f.ar, f.kres)
 
 \* the minifier body continues (private): next embedded resource, else the append, else the gate, else return
 Continue(t, g, f) ==
@@ -247,8 +263,14 @@ Do(t, g) ==
              t1 == [t EXCEPT !.rc = IF f.lk THEN @ - 1 ELSE @, !.st[g] = SubSeq(@, 1, Len(@) - 1)]
          IN IF Len(t.st[g]) > 1
             THEN LET p == Top(t1, g) IN Continue(t1, g, [p EXCEPT !.kres = Append(@, r)])
-            ELSE [t1 EXCEPT !.k[g] = @ + 1, !.gate[g] = FALSE,
-                            !.bad = IF r = ExpectedAt(f.node, me) THEN @ ELSE @ \cup {me}]
+            ELSE IF ~PoolBuf
+                 THEN [t1 EXCEPT !.k[g] = @ + 1, !.gate[g] = FALSE,
+                                 !.bad = IF r = ExpectedAt(f.node, me) THEN @ ELSE @ \cup {me}]
+                 ELSE \* buf := pool.Get(); defer pool.Put(buf); ... buf.Reset() only on success
+                      LET r2 == IF t.pool = "dirty" THEN [r EXCEPT !.pk = "foreign"] ELSE r
+                          t2 == [Wr(Acc(t1, "pool", "r"), "pool", g) EXCEPT !.pool = IF f.node.fail THEN "dirty" ELSE "clean"]
+                      IN [t2 EXCEPT !.k[g] = @ + 1, !.gate[g] = FALSE,
+                                    !.bad = IF r2 = ExpectedAt(f.node, me) THEN @ ELSE @ \cup {me}]
     \* ---- registration (only with AllowReg; outside the property) ----
     [] f.pc = "wlock" -> SetTop([t EXCEPT !.wp = g], g, [f EXCEPT !.pc = "wwait"])
     [] f.pc = "wwait" -> SetTop([t EXCEPT !.wp = 0, !.wh = g], g, [f EXCEPT !.pc = "wwrite"])
